@@ -106,6 +106,11 @@ def run_case(arg):
             for how in ("call-time", "data="):
                 arr = arr0.copy()
                 norm = CustomNormalization(stretch_type=st, **kw, **skw, **({"data": arr.copy()} if how == "data=" else {}))
+                if how == "call-time" and case.get("warm"):
+                    # the model's `warm` array: the same object is first applied to ANOTHER array (same unit / dtype);
+                    # limits taken at call time must then be those of the current array
+                    wv = np.array([float(af[0] * x + af[1]) for x in case["warm"]], dtype=float).astype(dt)
+                    norm(wv)
                 res = norm(arr)
                 msg = check_out(res, f"{st}{skw}", how, st == "linear")
                 if msg:
@@ -177,7 +182,10 @@ def check(rep, tier, seed):
     tlc.expect_clean(r, "NormMC")
     rn = tlc.run_tlc("NormOrder", "NormNEG.cfg", spec_dir=SPEC, workers=16, timeout=900)
     tlc.expect_violation(rn, "NormNEG (no clipping below the lower limit)", "Range")
-    rep.note("negative_controls", ["NormNEG: values below the lower limit are not clipped"])
+    rf = tlc.run_tlc("NormOrder", "NormNEG_frozen.cfg", spec_dir=SPEC, workers=16, timeout=900)
+    tlc.expect_violation(rf, "NormNEG_frozen (limits of an earlier array kept)", "LimitsOfCurrentData")
+    rep.note("negative_controls", ["NormNEG: values below the lower limit are not clipped",
+                                   "NormNEG_frozen: data-derived limits frozen by the first array the object saw"])
     import tempfile, shutil
     tmp = tempfile.mkdtemp(prefix="c20_")
     try:
